@@ -288,6 +288,24 @@ def rule_listwho(ctx, rep):
                               what="the helper is on call_rcu_data_list before its pointer is published to callers")
 
 
+def rule_parked(ctx, rep):
+    """rcu_barrier() in a fork child only sees what the inherited *shared* queues hold (shared with C16.pause): a helper never
+    acknowledges PAUSED while it holds a privately spliced batch."""
+    from . import c16
+    n0 = len(rep.results)
+    c16.rule_pause(ctx, rep)
+    keep = []
+    for r in rep.results[n0:]:
+        if "parks-empty-handed" in r["instance"] and "workqueue" not in r["instance"]:
+            r = dict(r)
+            r["key"] = r["key"].replace(r["rule"], "C04.parked")
+            r["rule"] = "C04.parked"
+            keep.append(r)
+    del rep.results[n0:]
+    rep.results += keep
+    pat.require(keep, "parks-empty-handed instances vanished")
+
+
 RULES = [
     ("C04.cs", rule_cs),
     ("C04.cs", rule_listcs),
@@ -299,5 +317,6 @@ RULES = [
     ("C04.fifo", rule_fifo),
     ("C04.wake", rule_wake),
     ("C04.who", rule_listwho),
+    ("C04.parked", rule_parked),
 ]
 FLOORS = {}
